@@ -125,6 +125,9 @@ func (s *String) ReadFrom(r io.Reader) (n int64, err error) {
 		return nn, err
 	}
 	n += nn
+	if l < 0 {
+		return n, errors.New("string length less than zero")
+	}
 
 	bs := make([]byte, l)
 	if _, err := io.ReadFull(r, bs); err != nil {
@@ -563,6 +566,9 @@ func (b *ByteArray) ReadFrom(r io.Reader) (n int64, err error) {
 	if err != nil {
 		return n1, err
 	}
+	if Len < 0 {
+		return n1, errors.New("byte array length less than zero")
+	}
 	if cap(*b) < int(Len) {
 		*b = make(ByteArray, Len)
 	} else {
@@ -612,6 +618,9 @@ func (b *BitSet) ReadFrom(r io.Reader) (n int64, err error) {
 	n, err = Len.ReadFrom(r)
 	if err != nil {
 		return
+	}
+	if Len < 0 {
+		return n, errors.New("bit set length less than zero")
 	}
 	if int(Len) > cap(*b) {
 		*b = make([]int64, Len)
